@@ -15,6 +15,7 @@ import (
 	"os"
 	"os/exec"
 	"path/filepath"
+	"runtime"
 	"sort"
 	"strconv"
 	"strings"
@@ -111,7 +112,33 @@ func hashStr(s string) uint64 {
 	return h.Sum64()
 }
 
+// memoryCeiling: the simulated machine has 6 GiB. A generated program that
+// needs more (a string doubled in a loop: 2^n bytes after n statements, far
+// inside any statement budget) is outside the explored space -- unbounded
+// memory in bounded steps is C20's subject, not claimed -- and must not be taken
+// for a crash of the interpreter when the kernel kills the process.
+const memoryCeiling = 6 << 30
+
+const memorySkip = "the case needs more memory than the simulated machine has (6 GiB): outside the explored space"
+
+func watchMemory(onExceed func()) {
+	go func() {
+		var ms runtime.MemStats
+		for {
+			time.Sleep(20 * time.Millisecond)
+			runtime.ReadMemStats(&ms)
+			if ms.HeapAlloc > memoryCeiling {
+				onExceed()
+			}
+		}
+	}()
+}
+
 func workerMain(args []string) {
+	watchMemory(func() {
+		os.Stdout.Write([]byte("M\n"))
+		os.Exit(77)
+	})
 	// worker <P> <tier> <seed> <shard> <nshards> <wlStart> <iStart>
 	prop := registry[args[0]]
 	tier := args[1]
@@ -243,11 +270,14 @@ func runWorkers(prop *Property, tier string, seed int64, nworkers int, deadline 
 				rd := bufio.NewReaderSize(stdout, 1<<20)
 				lastW, lastI := -1, -1
 				done := false
+				memCeil := false
 				for {
 					line, err := rd.ReadString('\n')
 					if len(line) > 0 {
 						line = strings.TrimRight(line, "\n")
 						switch {
+						case line == "M":
+							memCeil = true
 						case strings.HasPrefix(line, "S "):
 							fmt.Sscanf(line, "S %d %d", &lastW, &lastI)
 						case strings.HasPrefix(line, "V "):
@@ -293,6 +323,14 @@ func runWorkers(prop *Property, tier string, seed int64, nworkers int, deadline 
 					res.trouble = append(res.trouble, fmt.Sprintf("worker %d died before its first case", shard))
 					mu.Unlock()
 					return
+				}
+				if memCeil {
+					mu.Lock()
+					res.stats.Skipped[memorySkip]++
+					res.stats.Evaluations++
+					mu.Unlock()
+					wlStart, iStart = lastW, lastI+nworkers
+					continue
 				}
 				mu.Lock()
 				res.violations = append(res.violations, violation{Workload: prop.Workloads[lastW].Name, Index: lastI, Class: "crash", Msg: "the worker process died while executing this case (Go runtime fatal error)", wlOrder: lastW})
@@ -376,6 +414,11 @@ func oneMain(args []string) {
 		fmt.Fprintln(os.Stderr, "unknown workload")
 		os.Exit(2)
 	}
+	watchMemory(func() {
+		oj, _ := json.Marshal(Outcome{Skipped: memorySkip, LogHash: "memory-ceiling"})
+		os.Stdout.Write(oj)
+		os.Exit(0)
+	})
 	data, _ := io.ReadAll(os.Stdin)
 	c := w.New()
 	if err := json.Unmarshal(data, c); err != nil {
